@@ -387,6 +387,16 @@ def run_split(c, rng, op):
                             H3, Q3 = tr3.results.node['head'], tr3.results.link['flowrate']
                             same = all(float((H0[n] - H3[n]).abs().max()) <= 1e-3 + 1e-4 * float(H0[n].abs().max()) for n in H0.columns) and \
                                 all(float((Q0[l] - Q3[l]).abs().max()) <= 1e-5 + 1e-3 * qscale for l in Q0.columns)
+                            if not same:
+                                # with a tiny tank in the model the two independently solved runs also differ by amplified solver
+                                # noise (see above): the copy of the minor loss is still the mechanism when removing it takes away
+                                # at least 85 % of the difference (the rest: a tank-limit event a second earlier or later)
+                                import numpy as np
+                                orig_ = float(np.abs(H0.values - H2[list(H0.columns)].values).max())
+                                resid_ = float(np.abs(H0.values - H3[list(H0.columns)].values).max())
+                                if orig_ > 0 and resid_ <= 0.15 * orig_:
+                                    same = True
+                                    c.count('minor_loss_copy_explains_most_of_the_difference')
                             if same:
                                 kind = 'split_changes_hydraulics_minor_loss_on_both_pieces'
                     c.violate(kind, 'after the split %s %s differs by up to %.6g (pipe minor loss %s, check valve %s)' % (
